@@ -1,3 +1,3 @@
 #!/bin/sh
-# builds the verifier offline
-cd /verif/govc && GOFLAGS=-mod=mod GOPROXY=off GOSUMDB=off GOTOOLCHAIN=local go build -o ../bin/govc .
+# builds the verifier offline (into bin/ beside this script)
+cd "$(dirname "$0")/govc" && GOFLAGS=-mod=mod GOPROXY=off GOSUMDB=off GOTOOLCHAIN=local go build -o ../bin/govc .
